@@ -487,6 +487,23 @@ static void emit_value(Builder &b, const json &o, bool last = false)
 	} else {
 		std::string v = gen_string_value(r, b.g.hostile);
 		std::string enc = encode_string(r, v, -1, b.g.multiline);
+		if (b.g.hostile && r.chance(1, 12)) {
+			// an environment reference with a default, unquoted or inside double quotes; the variable is never set in
+			// the simulated environment, so the decoded value is the default - which may span lines
+			std::string dflt = gen_string_value(r, false, 5);
+			if (b.g.multiline && r.chance(1, 2))
+				dflt.insert(r.below(dflt.size() + 1), "\n");
+			std::string ref = "${NOPE_" + std::to_string(r.below(10)) + ":-" + dflt + "}";
+			if (r.chance(1, 2)) {
+				enc = ref;
+				v = dflt;
+			} else {
+				std::string pre = gen_string_value(r, false, 3), post = gen_string_value(r, false, 3);
+				std::string e1 = encode_string(r, pre, 2, false), e2 = encode_string(r, post, 2, false);
+				enc = e1.substr(0, e1.size() - 1) + ref + e2.substr(1);
+				v = pre + dflt + post;
+			}
+		}
 		b.tok(enc, "v", "str");
 		b.set_dec(v);
 	}
